@@ -146,7 +146,7 @@ Definition contribs_fail (model_keys : list str) (spec view : list contrib) : li
                                end in
   if contribs_eqb spec view then []
   else if contribs_eqb (map pinned_listener_key spec) view then tag "known:C05:vmodel_computed_arg"
-  else if contribs_perm spec view then tag "C11:order"
+  else if contribs_perm spec view || contribs_eqb_values_perm spec view then tag "C11:order"
   else
     (if contribs_eqb (filter is_listen spec) (filter is_listen view) then [] else tag "C05:model-props")
     ++ (if contribs_eqb (filter is_html_text spec) (filter is_html_text view) then [] else tag "C04:html-text")
@@ -324,7 +324,7 @@ Fixpoint const_lit (e : node) {struct e} : bool :=
 
 Definition trivial (e : node) : bool :=
   match e with
-  | Ident _ _ _ | JEmpty => true
+  | Ident _ _ _ | JEmpty | Hole => true
   | _ => is_lit e || const_lit e
   end.
 
@@ -388,7 +388,10 @@ Fixpoint src_leaves (fuel : nat) (el : node) (host_lazy : bool) {struct fuel} : 
           let '(cs, dirs, vslots) := spec_attrs E is_comp name attrs in
           let eager := ev (negb host_lazy) in
           flat_map (fun c => match c with
-                             | CKV _ vs => map (fun v => (v, eager)) vs
+                             | CKV _ vs =>
+                                 (* a spread element of a flattened class / style / listener array is
+                                    evaluated through its argument *)
+                                 map (fun v => match v with Spread x => (x, eager) | _ => (v, eager) end) vs
                              | CKVc k v => [(k, eager); (v, eager)]
                              | CListen (Computed (Bin _ _ a)) t => [(a, 2%nat); (mk_listener t, eager)]
                              | CListen k t => [(k, 2%nat); (mk_listener t, eager)]
